@@ -227,14 +227,7 @@ func certain(ps []pat, n string) string {
 	return w
 }
 
-// keyFor: a wrong staging / clean outcome for table n whose root cause is the known wrong
-// decision (a `?` absorbing a `%` in the more-specific test) is reported under that finding's key.
-func keyFor(base string, ps []pat, n string) string {
-	if c := certain(ps, n); c != "" && c != implDecide(ps, n) && hasBoth(ps, "?", "%") {
-		return keyQmarkPercent
-	}
-	return base
-}
+func keyFor(base string, ps []pat, n string) string { return base }
 
 func q(n string) string { return "`" + n + "`" }
 
